@@ -9,6 +9,7 @@ import (
 	"encoding/binary"
 	"fmt"
 	"runtime"
+	"sort"
 	"strings"
 	"sync"
 )
@@ -363,10 +364,124 @@ func c02Eval(st c02State, m c02Mut) (fs []verifFinding, authentic bool) {
 	return
 }
 
+// ---------------------------------------------------------------------------
+// cleartext arriving while encryption is due: it may be handed to the user only flagged as unencrypted
+
+type c02Clear struct {
+	World string `json:"world"`
+	R     int    `json:"receiver"`
+	State string `json:"state"`
+	Line  string `json:"line"`
+	Nth   int    `json:"nth"`
+}
+
+func c02ClearWorlds(seed int64) map[string]*verifWorld {
+	out := map[string]*verifWorld{}
+	for _, v := range []int{3, 2} {
+		// started by a query
+		out[fmt.Sprintf("v%d/query", v)] = verifEstablished(seed, v, 0)
+		// started by A's whitespace-tagged plaintext (A has offered the tag, B started the exchange)
+		pol := verifPolFor(v)
+		pol.add(sendWhitespaceTag)
+		pol.add(whitespaceStartAKE)
+		w := verifNewPair(verifPairCfg{Seed: seed, PolA: pol, PolB: pol})
+		r := w.P[0].Send([]byte("tagged opener"))
+		w.push(0, r.Out)
+		if w.deliverAll(40, nil) && w.P[0].C.IsEncrypted() && w.P[1].C.IsEncrypted() {
+			out[fmt.Sprintf("v%d/whitespace", v)] = w
+		}
+		// required encryption, still in plaintext
+		rp := verifPolFor(v)
+		rp.add(requireEncryption)
+		out[fmt.Sprintf("v%d/plaintext-required", v)] = verifNewPair(verifPairCfg{Seed: seed, PolA: rp, PolB: rp})
+	}
+	return out
+}
+
+func c02ClearEval(w0 *verifWorld, c c02Clear) (fs []verifFinding) {
+	w := w0.clone()
+	switch c.State {
+	case "after-traffic":
+		for i := 0; i < 2; i++ {
+			r := w.P[i].Send([]byte("traffic"))
+			w.push(i, r.Out)
+			w.deliverAll(10, nil)
+		}
+	case "finished":
+		r := w.P[1-c.R].End()
+		w.push(1-c.R, r.Out)
+		w.deliverAll(10, nil)
+	}
+	R := w.P[c.R]
+	R.Rec.take()
+	due := R.C.msgState != plainText || R.C.Policies.has(requireEncryption)
+	for n := 0; n <= c.Nth; n++ {
+		line := []byte(c.Line)
+		want := line
+		if i := bytes.Index(line, refTagBase); i >= 0 {
+			// the tag is the base followed by any number of 8-character version tags made of blanks and tabs
+			j := i + len(refTagBase)
+			for j+8 <= len(line) && verifIsWS(line[j:j+8]) {
+				j += 8
+			}
+			want = append(append([]byte{}, line[:i]...), line[j:]...)
+		}
+		r := R.Receive(line)
+		if r.Panic != "" {
+			return []verifFinding{{"C02:panic:" + verifPanicClass(r.Panic), r.Panic}}
+		}
+		if n < c.Nth || !r.HasPln || !due {
+			continue
+		}
+		flagged := false
+		for _, ev := range r.Events {
+			if ev.Kind == 'M' && MessageEvent(ev.Code) == MessageEventReceivedMessageUnencrypted && bytes.Equal(ev.Msg, r.Plain) {
+				flagged = true
+			}
+		}
+		if !flagged {
+			fs = append(fs, verifFinding{"C02:cleartext-delivered-unflagged", fmt.Sprintf("world %s, %s (%s), injection #%d of %q: Receive returned %q without a received-unencrypted event", c.World, R.Name, c.State, n+1, c.Line, verifTrunc(r.Plain))})
+		}
+		if !bytes.Equal(r.Plain, want) {
+			fs = append(fs, verifFinding{"C02:cleartext-altered", fmt.Sprintf("world %s, %s (%s): cleartext %q came out as %q", c.World, R.Name, c.State, c.Line, verifTrunc(r.Plain))})
+		}
+	}
+	return
+}
+
+func c02ClearCases(worlds map[string]*verifWorld) (out []c02Clear) {
+	lines := []string{"hello in the clear", "x", "line with tag" + string(refTagBase) + string(refWS("3")) + string(refWS("2")), string(refTagBase) + string(refWS("2")) + "tag first", "?OTR but not really"}
+	var names []string
+	for k := range worlds {
+		names = append(names, k)
+	}
+	sort.Strings(names)
+	for _, wn := range names {
+		states := []string{"fresh", "after-traffic", "finished"}
+		if strings.HasSuffix(wn, "plaintext-required") {
+			states = []string{"fresh"}
+		}
+		for r := 0; r < 2; r++ {
+			for _, st := range states {
+				for _, l := range lines {
+					for nth := 0; nth < 2; nth++ {
+						out = append(out, c02Clear{wn, r, st, l, nth})
+					}
+				}
+			}
+		}
+	}
+	return
+}
+
 func init() {
 	verifChecks["C02"] = &verifCheck{
 		Level: "model_checking",
 		ReplayCase: func(cj string, seed int64) []verifFinding {
+			var cc c02Clear
+			if jsonUnmarshal(cj, &cc) == nil && cc.World != "" {
+				return c02ClearEval(c02ClearWorlds(seed)[cc.World], cc)
+			}
 			var c c02Case
 			if jsonUnmarshal(cj, &c) != nil {
 				return nil
@@ -387,7 +502,7 @@ func init() {
 			return nil
 		},
 		Run: func(r *verifReport) {
-			r.Rule = "session states at several ratchet positions and in a second session (v2, v3) × every kind of data message in flight (text either way, SMP, disconnect, extra key) × single deviations: EVERY raw byte position × xor {01,80,ff}, EVERY truncation length, extension by 1/4 bytes inside and after the authenticated part, base64 character substitutions, and field substitutions (key ids ±1 / retired pair, counter ±1, next DH, flag, ciphertext swapped or bit-flipped) with the MAC left alone AND recomputed under every MAC key disclosed on the wire so far (both sessions) and unrelated keys; each delivered to a clone of the receiver. Reference verdict: authentic ⇔ header+authenticated body+MAC byte-identical to the genuine message. Non-authentic ⇒ no plaintext, no data-message reply, no SMP/security/key event, message and SMP state unchanged; authentic ⇒ delivered exactly"
+			r.Rule = "session states at several ratchet positions and in a second session (v2, v3) × every kind of data message in flight (text either way, SMP, disconnect, extra key) × single deviations: EVERY raw byte position × xor {01,80,ff}, EVERY truncation length, extension by 1/4 bytes inside and after the authenticated part, base64 character substitutions, and field substitutions (key ids ±1 / retired pair, counter ±1, next DH, flag, ciphertext swapped or bit-flipped) with the MAC left alone AND recomputed under every MAC key disclosed on the wire so far (both sessions) and unrelated keys; each delivered to a clone of the receiver. Reference verdict: authentic ⇔ header+authenticated body+MAC byte-identical to the genuine message. Non-authentic ⇒ no plaintext, no data-message reply, no SMP/security/key event, message and SMP state unchanged; authentic ⇒ delivered exactly. Plus: cleartext lines (plain, whitespace-tagged, OTR-looking) injected once and twice into sessions started by query or by whitespace tag, fresh / after traffic / finished, and into plaintext conversations that require encryption: whatever Receive returns must be flagged by a received-unencrypted event carrying the same text"
 			r.Assumptions = []string{"forgeries use only keys an attacker can read off the wire (disclosed MAC keys) or invent; the genuine current MAC key is used only by the unchanged control", "multi-byte changes beyond the listed field substitutions are not covered"}
 			type job struct {
 				st c02State
@@ -434,6 +549,18 @@ func init() {
 			}
 			close(jobs)
 			wg.Wait()
+			// cleartext while encryption is due
+			worlds := c02ClearWorlds(r.Seed)
+			for _, cc := range c02ClearCases(worlds) {
+				fs := c02ClearEval(worlds[cc.World], cc)
+				r.Evals++
+				r.Nontrivial++
+				classes["cleartext-injection"]++
+				for _, f := range fs {
+					r.addCase("C02", f.Sig, f.Detail, cc)
+				}
+			}
+			r.sample(map[string]interface{}{"cleartext": c02Clear{"v3/whitespace", 1, "after-traffic", "hello in the clear", 0}})
 			r.States = int64(n)
 			r.Traces = r.Evals
 			r.Extra["cases_by_family"] = classes
